@@ -167,15 +167,17 @@ def main():
         profs = []                      # (object, label) of the profiler objects met, in order of appearance
         counters = dict(own=0)
 
-        def label(obj, run_number):
-            """run_number: index of the kernprof run that just ended, None after an ordinary-use step"""
+        def label(obj, run_number, own_hint=False):
+            """run_number: index of the kernprof run that just ended, None after an ordinary-use step;
+            own_hint: that run's setup file used the decorator (a new object in profile._profile is its own profiler)"""
             if obj is None:
                 return None
             for o, lab in profs:
                 if o is obj:
                     return lab
             if type(obj).__name__ in ('LineProfiler', 'ContextualProfile'):
-                if run_number is None:
+                if run_number is None or (own_hint and any(l == ['ext', run_number] for _, l in profs)) \
+                        or (own_hint and obj is not builtins.__dict__.get('profile') and counters.get('plain_hint')):
                     counters['own'] += 1
                     lab = ['own', counters['own']]       # created by line_profiler.profile.enable() itself
                 elif all(l != ['ext', run_number] for _, l in profs):
@@ -186,13 +188,14 @@ def main():
                 return lab
             return ['other', type(obj).__name__]
 
-        def observe(prev_argv, prev_path, run_number, raised):
+        def observe(prev_argv, prev_path, run_number, raised, own_hint=False, plain=False):
             hs = helper_threads()
+            counters['plain_hint'] = plain       # plain cProfile mode: kernprof's profiler is in no builtin to be recognised by
+            blt = label(builtins.__dict__.get('profile'), run_number)      # first: this is kernprof's profiler for sure
             return dict(raised=raised,
                         argv=[canon(a) for a in sys.argv], argv_same=sys.argv is prev_argv, argv_cap=sys.argv is A0,
                         path=[canon(a) for a in sys.path], path_same=sys.path is prev_path,
-                        enabled=gp.enabled, profile=label(gp._profile, run_number),
-                        builtin=label(builtins.__dict__.get('profile'), run_number),
+                        enabled=gp.enabled, profile=label(gp._profile, run_number, own_hint), builtin=blt,
                         threads=len(hs), thread_kinds=sorted({type(t).__name__ for t in hs}),
                         tracing=bool(sys.gettrace() is not None or sys.getprofile() is not None or tool_set()))
 
@@ -235,7 +238,7 @@ def main():
                     kernprof.main(list(run['args']))
                 except BaseException as e:  # noqa
                     raised = type(e).__name__
-            ob = observe(prev_argv, prev_path, j, raised)
+            ob = observe(prev_argv, prev_path, j, raised, own_hint=bool(run.get('setup_uses')), plain=bool(run.get('plain')))
             ob['stderr'] = se.getvalue()[-300:]
             ob['pre'] = pre
             seen.append(ob)
